@@ -267,10 +267,13 @@ class GenA:
         for _ in range(8):
             op = rng.choice(['fill_to', 'fill_to', 'remove', 'transfer'])
             self.only_plate = pa
+            save = self.p
+            self.p = dict(self.p, stale_p=0.0)      # always the latest version: both plates keep evolving alike
             try:
                 ev = getattr(self, 'gen_' + op)()
             finally:
                 self.only_plate = None
+                self.p = save
             if ev is None:
                 continue
             refs = [ev[f] for f in ('src', 'dst', 'tgt') if isinstance(ev.get(f), list)]
@@ -280,9 +283,6 @@ class GenA:
             for f in ('src', 'dst', 'tgt'):
                 if isinstance(twin.get(f), list) and twin[f][0] == pa:
                     twin[f][0] = pb
-                    twin[f][1] = -1
-                if isinstance(ev.get(f), list) and ev[f][0] == pa:
-                    ev[f][1] = -1
             twin['obs'] = rng.randrange(1 << 30)
             self.pending.append(twin)
             self.b.stats['probe:mirrored_pair'] += 1
